@@ -30,7 +30,15 @@ def gen_pool(rng):
 		body += [f'def picked() -> None:', f'\tp = Picker().pick({lit[k]}, {lit[v]}, {lit[rng.choice(kt)]})', '\tfor a, inner in p.items():', '\t\tfor b, c in inner.items():', '\t\t\tz = c', f'\tq = Picker().pair({lit[v]}, {lit[k]})', '']
 		body += ['class Local:', f'\tdef value(self) -> {v}:', f'\t\treturn {lit[v]}', '']
 		pool[f'm{i}.py'] = '\n'.join(body)
+	# a module whose exported class name comes from a decorator (re-submitted with another alias inside a session), and two modules whose
+	# paths are in prefix relation (unit / units)
+	pool['unit.py'] = 'def one() -> int:\n\treturn 1\n'
+	pool['units.py'] = 'def many() -> int:\n\treturn 2\n'
 	return pool
+
+
+ALIAS = ("from rogw.tranp.compatible.python.embed import Embed\n\n\n@Embed.alias('{name}')\nclass Counter:\n\tdef __init__(self, start: int) -> None:\n\t\tself.start: int = start\n\n\n"
+	"def make() -> None:\n\tc = Counter(1)\n")
 
 
 def run_worker(p, ops, hashseed):
@@ -84,14 +92,59 @@ def run(tier: str, seed: int = 0):
 				if got != ref[out['module']]:
 					fails.append({'what': f'transpile({out["module"]}) as step {i} of a session differs from the same request in a fresh process', 'history': ops[:i + 1], 'diff': first_diff(ref[out['module']], got)})
 					break
+		# ---- interactive mode: several submissions in one session; each text must be what a fresh session gives for that submission alone
+		subs = [ALIAS.format(name='Meter'), 'def f(n: int) -> int:\n\treturn n + 1\n', ALIAS.format(name='Gauge'), ALIAS.format(name='Meter'), 'from src.base import Box\n\ndef g() -> None:\n\tb = Box[int]()\n\tx = b.get(1)\n']
+		fresh = {}
+		for t in subs:
+			if t not in fresh:
+				fresh[t] = outcome(run_worker(p, [['submit', t]], 0)[0])
+		scripted = [[subs[0], subs[2], subs[0]], [subs[4], subs[1], subs[4]]]  # the same class re-submitted with another alias and back; a user of an imported generic around an unrelated submission
+		for h in range(len(scripted) + (1 if tier == 'quick' else 8)):
+			seq = scripted[h] if h < len(scripted) else [rng.choice(subs) for _ in range(rng.randint(2, 4))]
+			res = run_worker(p, [['submit', t] for t in seq], rng.choice([0, 3]))
+			for i, (t, out) in enumerate(zip(seq, res)):
+				cases += 1
+				if outcome(out) != fresh[t]:
+					fails.append({'what': f'submission #{i + 1} of an interactive session gives another text than the same submission in a fresh session', 'history': seq[:i + 1], 'diff': first_diff(fresh[t], outcome(out))})
+					break
+		# ---- target order: the same module gives the same text whatever the order of the target list
+		import itertools
+		names = ['src/units.py', 'src/unit.py', 'src/m0.py']
+		texts = {}
+		for order in list(itertools.permutations(names))[: (3 if tier == 'quick' else 6)]:
+			set_inputs(p, list(order))
+			for m in ['src.unit', 'src.units']:
+				cases += 1
+				t = outcome(run_worker(p, [['transpile', m]], 0)[0])
+				if m in texts and texts[m][1] != t:
+					fails.append({'what': f'transpile({m}) depends on the order of the target list', 'orders': [texts[m][0], list(order)], 'diff': first_diff(texts[m][1], t)})
+				texts.setdefault(m, (list(order), t))
 		return cases, fails, {k: v for k, v in pool.items()}
 	finally:
 		p.close()
 
 
+def set_inputs(p, globs):
+	"""Rewrite the input_globs list of the scratch project's config.yml (explicit files, in the given order)."""
+	cfgp = os.path.join(p.dir, 'config.yml')
+	lines = open(cfgp).read().split('\n')
+	out, skip = [], False
+	for ln in lines:
+		if ln.startswith('input_globs:'):
+			out.append(ln)
+			out += [f'  - {g}' for g in globs]
+			skip = True
+			continue
+		if skip and ln.startswith('  - '):
+			continue
+		skip = False
+		out.append(ln)
+	open(cfgp, 'w').write('\n'.join(out))
+
+
 def outcome(out):
-	"""Text of a transpile without its header line, or the error it ended with."""
-	return body_without_header(out['text']) if 'text' in out else 'ERROR ' + out.get('error', '')
+	"""Text of a transpile (the header line with the recorded hashes included), or the error it ended with."""
+	return out['text'] if 'text' in out else 'ERROR ' + out.get('error', '')
 
 
 def first_diff(a, b):
